@@ -183,10 +183,15 @@ def answer (line : String) : String :=
       let lag := lagrangeSetup k (fr s)
       toHex ((vals.zip lag).foldl (fun (acc : Fr) vl => acc + fr vl.1 * vl.2) 0).val
     | _, _, _ => "bad-op"
-  | ["lagrange", "via=setup", k, s] =>
-    match kvNat "k" k, kvNat "s" s with
-    | some k, some s => if k > 16 then "bad-op" else fmtFr (lagrangeSetup k (fr s))
-    | _, _ => "bad-op"
+  | ["lagrange", "via=setup", t, k, s] =>
+    -- `unsafe_setup` under `t` threads: monomial exponents and Lagrange scalars
+    match kvNat "t" t, kvNat "k" k, kvNat "s" s with
+    | some t, some k, some s =>
+      if k > 16 ∨ t = 0 then "bad-op" else
+      let p := setupChunked t Zr.inv (dom k) (fr s) (2 ^ k)
+      let gOk := p.g == (List.range (2 ^ k)).map (fun i => (fr s).pow i)
+      s!"g={fmtBool gOk} {fmtFr p.gLagrange}"
+    | _, _, _ => "bad-op"
   | ["lagrange", "via=downsize", from_, k, s] =>
     match kvNat "from" from_, kvNat "k" k, kvNat "s" s with
     | some km, some k, some s =>
